@@ -270,7 +270,11 @@ def unfitted():
 def malformed_data():
     obs = []
     bads = {"NaN": np.array([[0., 1.], [np.nan, 2.], [1., 1.], [2., 0.]]), "inf": np.array([[0., 1.], [np.inf, 2.], [1., 1.], [2., 0.]]),
-            "strings": np.array([["a", "b"], ["c", "d"], ["e", "f"], ["g", "h"]]), "1-D": np.arange(6.), "3-D": np.zeros((4, 2, 2)),
+            "strings": np.array([["a", "b"], ["c", "d"], ["e", "f"], ["g", "h"]]),
+            # non-numeric data whose entries happen to spell numbers: str / bytes arrays are not numeric training data
+            "numeric strings": np.array([["0.5", "1.25"], ["2", "-1"], ["1e-1", "3"], ["4.5", "0"], ["7", "1"], ["2.5", "2.5"]]),
+            "numeric bytes": np.array([[b"0.5", b"1.25"], [b"2", b"-1"], [b"1", b"3"], [b"4.5", b"0"], [b"7", b"1"], [b"2.5", b"2.5"]]),
+            "1-D": np.arange(6.), "3-D": np.zeros((4, 2, 2)),
             "empty": np.zeros((0, 2)), "no features": np.zeros((4, 0)), "fewer samples than clusters": np.zeros((2, 2)) + np.arange(2)[:, None]}
     for cls in estimators_all():
         bad = []
